@@ -969,6 +969,31 @@ fn week_day_name_contract() {
     assert!(r2.is_ok() && r2.unwrap().as_bytes() == &[b'0' + wd as u8]);
 }
 
+/// write_u32(value, width): the decimal digits of value, zero-padded on the left to at least `width`
+#[kani::proof]
+#[kani::unwind(13)]
+#[kani::stub(crate::util::try_format, stub_try_format)]
+fn write_u32_contract() {
+    let v: u32 = kani::any();
+    let width: usize = kani::any();
+    kani::assume(width >= 1 && width <= 10);
+    let mut w = Sink::new();
+    assert!(write_u32(&mut w, v, width).is_ok());
+    let mut exp = [0u8; EXPN];
+    let n = put_digits(&mut exp, 0, v, width);
+    assert!(w.eq_bytes(&exp[..n]));
+}
+
+pub static mut K_WU_VALUE: u32 = 0;
+pub static mut K_WU_WIDTH: usize = 0;
+pub static mut K_WU_CALLS: u32 = 0;
+/// `write_u32` replaced by "records (value, width), writes the marker 'u'" (contract: write_u32_contract)
+pub fn write_u32_probe<W: fmt::Write>(mut w: W, value: u32, width: usize) -> Result<()> {
+    unsafe { K_WU_VALUE = value; K_WU_WIDTH = width; K_WU_CALLS += 1; }
+    w.write_str("u")?;
+    Ok(())
+}
+
 // markers standing for "the text returned by helper X" in the glue obligation
 pub fn mk_month_str(_dt: &NaiveDateTime) -> &str { "a" }
 pub fn mk_day_str(_dt: &NaiveDateTime) -> &str { "b" }
@@ -1005,7 +1030,30 @@ fn glue_ref<T: DateTimeFormat>(f: &Field, p: &Probe<T>, out: &mut [u8; EXPN], at
         Field::WeekOfMonth => if date { mark(out, b'k') } else { None },
         Field::WeekOfYear => if date { mark(out, b'l') } else { None },
         Field::AmPm(_) => if time && !dtv { mark(out, b'n') } else { None },
+        Field::Year(_) => if date || ym { mark(out, b'u') } else { None },
+        Field::Fraction(_) => if T::HAS_FRACTION { mark(out, b'u') } else { None },
         _ => render_ref::<T>(f, p, out, at),
+    }
+}
+
+/// the number handed to write_u32 by the year / fraction tokens
+fn glue_number<T: DateTimeFormat>(f: &Field, p: &Probe<T>) -> Option<(u32, usize)> {
+    match f {
+        Field::Year(n) => {
+            if T::HAS_DATE { let modulus: u32 = match n { 1 => 10, 2 => 100, 3 => 1000, _ => 10000 }; Some((p.year as u32 % modulus, *n as usize)) }
+            else if T::IS_INTERVAL_YM { Some((p.year as u32, *n as usize)) } else { None }
+        }
+        Field::Fraction(q) => {
+            if T::HAS_FRACTION {
+                let digits = q.unwrap_or(6);
+                let mut v = p.usec;
+                let mut k = 6u8;
+                while k > digits { v /= 10; k -= 1; }
+                while k < digits { v *= 10; k += 1; }
+                Some((v, digits as usize))
+            } else { None }
+        }
+        _ => None,
     }
 }
 
@@ -1013,17 +1061,22 @@ fn glue_check<T: DateTimeFormat>() {
     let mut p = any_probe::<T>();
     if T::IS_INTERVAL_DT { kani::assume(p.day < 1000); }
     let f = any_field();
-    kani::assume(!matches!(f, Field::Fraction(_)));      // fmt_glue_fraction
+    unsafe { K_WU_CALLS = 0; }
     let mut exp = [0u8; EXPN];
     let mut at = 0;
     if p.negative { exp[0] = b'-'; at = 1; } else if T::IS_INTERVAL_YM || T::IS_INTERVAL_DT { exp[0] = b'+'; at = 1; }
     let want = glue_ref::<T>(&f, &p, &mut exp, at);
+    let num = glue_number::<T>(&f, &p);
     let fmt = one_field(f);
     let mut w = Sink::new();
     let r = fmt.format(p, &mut w);
     match want {
         Some(n) => { assert!(r.is_ok()); assert!(w.eq_bytes(&exp[..n])); }
         None => assert!(r.is_err()),
+    }
+    match num {
+        Some((v, width)) => assert!(unsafe { K_WU_CALLS } == 1 && unsafe { K_WU_VALUE } == v && unsafe { K_WU_WIDTH } == width),
+        None => assert!(unsafe { K_WU_CALLS } == 0 || T::IS_INTERVAL_DT),
     }
 }
 
@@ -1046,6 +1099,7 @@ macro_rules! glue_harness {
         #[kani::stub(NaiveDateTime::week_of_month_str, mk_week_of_month_str)]
         #[kani::stub(NaiveDateTime::week_of_year_str, mk_week_of_year_str)]
         #[kani::stub(AmPmStyle::format, mk_ampm_format)]
+        #[kani::stub(write_u32, write_u32_probe)]
         fn $name() { glue_check::<$t>(); }
     };
 }
@@ -1055,34 +1109,6 @@ glue_harness!(fmt_glue_timestamp, Timestamp);
 glue_harness!(fmt_glue_interval_ym, IntervalYM);
 glue_harness!(fmt_glue_interval_dt_bounded, IntervalDT);
 glue_harness!(fmt_glue_oracle_date, crate::oracle::Date);
-
-fn fraction_glue<T: DateTimeFormat>(q: Option<u8>) {
-    let p = any_probe::<T>();
-    let f = Field::Fraction(q);
-    let mut exp = [0u8; EXPN];
-    let mut at = 0;
-    if p.negative { exp[0] = b'-'; at = 1; } else if T::IS_INTERVAL_YM || T::IS_INTERVAL_DT { exp[0] = b'+'; at = 1; }
-    let want = render_ref::<T>(&f, &p, &mut exp, at);
-    let fmt = one_field(f);
-    let mut w = Sink::new();
-    let r = fmt.format(p, &mut w);
-    match want {
-        Some(n) => { assert!(r.is_ok()); assert!(w.eq_bytes(&exp[..n])); }
-        None => assert!(r.is_err()),
-    }
-}
-
-/// FF / FF1..FF9 (concrete precision per call): the digits of fraction(p) zero-padded to p; Err for types without a fraction
-#[kani::proof]
-#[kani::unwind(13)]
-#[kani::stub(crate::util::try_format, stub_try_format)]
-#[kani::stub(NaiveDateTime::fraction, fraction_by_contract)]
-fn fmt_glue_fraction() {
-    fraction_glue::<Time>(None);
-    fraction_glue::<Timestamp>(Some(3));
-    fraction_glue::<IntervalDT>(Some(9));
-    fraction_glue::<Date>(Some(6));
-}
 
 /// EVERY token on EVERY field record of one type, end to end (no helper stubbed): thorough tier
 /// EVERY token on EVERY field record of one type: the text written is the reference rendering, prefixed once by the interval sign;
